@@ -327,6 +327,11 @@ def step (s : St) (ws : List String) : St × List String :=
   | "enc_from2" :: script :: ps => stepFrom2 s true script ps
   | "dec_from2" :: script :: ps => stepFrom2 s false script ps
   | ["post_fill", k, hex] => stepPostFill s k hex
+  -- a drain when there is no iovec (before any constructor, or after a failed `finish` consumed the decoder
+  -- and its iovec): the harness has nothing to call and answers `bad-op`
+  | "drain_all" :: _ => if (w.iov 0).isNone then (s, ["bad-op"]) else stepRest s ws
+  | "drain_slices" :: _ => if (w.iov 0).isNone then (s, ["bad-op"]) else stepRest s ws
+  | "drain_bytes" :: _ => if (w.iov 0).isNone then (s, ["bad-op"]) else stepRest s ws
   -- <<< track apileft-prefill
   -- `new_from_iovec(iovec)` on an iovec that already holds `prefill` (handed over with `push`)
   | op :: prefill :: ps =>
